@@ -32,6 +32,11 @@ class RecChunks(_orig_chunks):
         REC['obj'] = self
 
     def getbounds(self, ra, dec, marginSize):
+        # arguments of the call, and raMargin recomputed with the same numpy expressions as the (repaired) getbounds
+        sinMargin = np.sin(np.deg2rad(marginSize))
+        cosDec = np.cos(np.deg2rad(dec))
+        raMargin = float(np.rad2deg(np.arcsin(sinMargin / cosDec))) if sinMargin < cosDec else 360.0
+        REC.setdefault('gbargs', []).append([float(ra), float(dec), float(marginSize), raMargin])
         try:
             r = super().getbounds(ra, dec, marginSize)
         except PydlutilsException as e:
@@ -102,7 +107,7 @@ def one(c):
     if record and 'nRa' in REC:
         obj = REC.pop('obj', None)
         rec = {k: REC.get(k) for k in ('nRa', 'nDec', 'decBounds', 'raBounds', 'raOffset', 'bounds', 'cells', 'perm',
-                                       'minSize', 'getbounds_errors')}
+                                       'minSize', 'getbounds_errors', 'gbargs')}
         if obj is not None:
             rec['chunklist'] = [[i, j, [int(x) for x in obj.chunkList[i][j]]]
                                 for i in range(obj.nDec) for j in range(obj.nRa[i]) if len(obj.chunkList[i][j]) > 0]
